@@ -41,6 +41,7 @@ func WriteBinary(env *dsl.Environment, options packaging.CppCodegenOptions) erro
 #include "../yardl/detail/binary/coded_stream.h"
 #include "../yardl/detail/binary/serializers.h"
 `)
+	collectPreviousVersionDefinitions(env)
 	writeIsTriviallySerializableSpecializations(w, env)
 	writeUnionSerializers(w, env)
 	for _, ns := range env.Namespaces {
@@ -177,6 +178,48 @@ func writeHeaderFile(env *dsl.Environment, options packaging.CppCodegenOptions) 
 
 	filePath := path.Join(options.SourcesOutputDir, "protocols.h")
 	return iocommon.WriteFileIfNeeded(filePath, b.Bytes(), 0644)
+}
+
+// Qualified names of the definitions of previous versions that changed since: they are read and
+// written by compatibility serializers that convert every value.
+var previousVersionDefinitions map[string]bool
+
+func collectPreviousVersionDefinitions(env *dsl.Environment) {
+	previousVersionDefinitions = make(map[string]bool)
+	for _, ns := range env.Namespaces {
+		for _, version := range ns.Versions {
+			for _, change := range ns.DefinitionChanges[version] {
+				if _, ok := change.(*dsl.EnumChange); ok {
+					continue
+				}
+				previousVersionDefinitions[change.PreviousDefinition().GetDefinitionMeta().GetQualifiedName()] = true
+			}
+		}
+	}
+}
+
+// Whether values of this type are (partly) read and written by a compatibility serializer.
+// A container of such elements must not copy them in bulk, which it would do on the strength
+// of the element's C++ type alone: that type is the one of the latest version.
+func usesCompatibilitySerializer(t dsl.Type) bool {
+	found := false
+	dsl.Visit(t, func(self dsl.Visitor, node dsl.Node) {
+		if found {
+			return
+		}
+		if st, ok := node.(*dsl.SimpleType); ok && st.ResolvedDefinition != nil {
+			meta := st.ResolvedDefinition.GetDefinitionMeta()
+			if previousVersionDefinitions[meta.GetQualifiedName()] {
+				found = true
+				return
+			}
+			for _, arg := range meta.TypeArguments {
+				self.Visit(arg)
+			}
+		}
+		self.VisitChildren(node)
+	})
+	return found
 }
 
 func writeIsTriviallySerializableSpecializations(w *formatting.IndentedWriter, env *dsl.Environment) {
@@ -1092,7 +1135,11 @@ func writeStepRw(w *formatting.IndentedWriter, stepType dsl.Type, target string,
 	} else {
 		if isPlural {
 			stepType = stepType.(*dsl.GeneralizedType).ToScalar()
-			fmt.Fprintf(w, "yardl::binary::ReadBlocksIntoVector<%s, %s>(stream_, current_block_remaining_, %s);\n", common.TypeSyntax(stepType), typeRwFunction(stepType, write), target)
+			noBulkCopy := ""
+			if usesCompatibilitySerializer(stepType) {
+				noBulkCopy = ", false"
+			}
+			fmt.Fprintf(w, "yardl::binary::ReadBlocksIntoVector<%s, %s%s>(stream_, current_block_remaining_, %s);\n", common.TypeSyntax(stepType), typeRwFunction(stepType, write), noBulkCopy, target)
 		} else {
 			fmt.Fprintf(w, "read_block_successful = yardl::binary::ReadBlock<%s, %s>(stream_, current_block_remaining_, %s);\n", common.TypeSyntax(stepType), typeRwFunction(stepType, write), target)
 		}
@@ -1272,27 +1319,33 @@ func typeRwFunction(t dsl.Type, write bool) string {
 			return fmt.Sprintf("%sUnion<%s>", verb(write), strings.Join(templateArguments, ", "))
 		}()
 
+		// elements that go through a compatibility serializer are never copied in bulk
+		noBulkCopy, elementwise := "", ""
+		if t.Dimensionality != nil && usesCompatibilitySerializer(scalarType) {
+			noBulkCopy, elementwise = ", false", "Elementwise"
+		}
+
 		switch td := t.Dimensionality.(type) {
 		case nil, *dsl.Stream:
 			return scalarFunction
 		case *dsl.Vector:
 			if td.Length == nil {
-				return fmt.Sprintf("yardl::binary::%sVector<%s, %s>", verb(write), common.TypeSyntax(scalarType), scalarFunction)
+				return fmt.Sprintf("yardl::binary::%sVector<%s, %s%s>", verb(write), common.TypeSyntax(scalarType), scalarFunction, noBulkCopy)
 			}
-			return fmt.Sprintf("yardl::binary::%sArray<%s, %s, %d>", verb(write), common.TypeSyntax(scalarType), scalarFunction, *td.Length)
+			return fmt.Sprintf("yardl::binary::%sArray<%s, %s, %d%s>", verb(write), common.TypeSyntax(scalarType), scalarFunction, *td.Length, noBulkCopy)
 		case *dsl.Array:
 			if td.IsFixed() {
 				lengths := make([]string, len(*td.Dimensions))
 				for i, d := range *td.Dimensions {
 					lengths[i] = strconv.FormatUint(*d.Length, 10)
 				}
-				return fmt.Sprintf("yardl::binary::%sFixedNDArray<%s, %s, %s>", verb(write), common.TypeSyntax(scalarType), scalarFunction, strings.Join(lengths, ", "))
+				return fmt.Sprintf("yardl::binary::%sFixedNDArray%s<%s, %s, %s>", verb(write), elementwise, common.TypeSyntax(scalarType), scalarFunction, strings.Join(lengths, ", "))
 			}
 			if td.HasKnownNumberOfDimensions() {
-				return fmt.Sprintf("yardl::binary::%sNDArray<%s, %s, %d>", verb(write), common.TypeSyntax(scalarType), scalarFunction, len(*td.Dimensions))
+				return fmt.Sprintf("yardl::binary::%sNDArray<%s, %s, %d%s>", verb(write), common.TypeSyntax(scalarType), scalarFunction, len(*td.Dimensions), noBulkCopy)
 			}
 
-			return fmt.Sprintf("yardl::binary::%sDynamicNDArray<%s, %s>", verb(write), common.TypeSyntax(scalarType), scalarFunction)
+			return fmt.Sprintf("yardl::binary::%sDynamicNDArray<%s, %s%s>", verb(write), common.TypeSyntax(scalarType), scalarFunction, noBulkCopy)
 		case *dsl.Map:
 			return fmt.Sprintf("yardl::binary::%sMap<%s, %s, %s, %s>", verb(write), common.TypeSyntax(td.KeyType), common.TypeSyntax(scalarType), typeRwFunction(td.KeyType, write), scalarFunction)
 		default:
